@@ -22,6 +22,7 @@ from dimod import (BinaryQuadraticModel as BQM, QuadraticModel as QM, Constraine
                    DiscreteQuadraticModel as DQM, BinaryPolynomial, SampleSet)
 
 from harness.common import lab, rat, run_driver
+from harness.props import accessors as ACC, cqm_history as HIST
 from harness.props.energy_common import (LABELS, Recipe, q8, F, fl, poly_value, rats, labs, rows_tok, introws_tok,
                                          adj_tok, qmb_tokens, domain, perm_of, dict_lit, encodings, run_child,
                                          exc_class, gen_bqm, gen_qm, edit_history)
@@ -33,23 +34,29 @@ class Batch:
     def __init__(self, ctx):
         self.ctx = ctx
         self.items = []
+        self.other = {}
 
-    def add(self, line, expect, site, input_class, what, detail=None, on_mismatch=None):
-        self.items.append((line, expect, site, input_class, what, detail, on_mismatch))
+    def add(self, line, expect, site, input_class, what, detail=None, on_mismatch=None, driver='energydriver'):
+        (self.items if driver == 'energydriver' else self.other.setdefault(driver, [])).append(
+            (line, expect, site, input_class, what, detail, on_mismatch))
 
     def flush(self):
-        if not self.items:
+        for driver, items in [('energydriver', self.items)] + sorted((self.other or {}).items()):
+            self.flush_one(driver, items)
+        self.items, self.other = [], {}
+
+    def flush_one(self, driver, items):
+        if not items:
             return
-        got = run_driver('energydriver', [it[0] for it in self.items])
-        self.ctx.corr_lines += len(self.items)
-        for i, (line, expect, site, ic, what, detail, on_mismatch) in enumerate(self.items):
+        got = run_driver(driver, [it[0] for it in items])
+        self.ctx.corr_lines += len(items)
+        for i, (line, expect, site, ic, what, detail, on_mismatch) in enumerate(items):
             g = got[i] if i < len(got) else 'MISSING'
             if g != expect:
                 if on_mismatch is not None and on_mismatch(g):
                     continue
                 self.ctx.fail('correspondence', site, ic, f'{what}: implementation `{expect}` model `{g}`',
                               detail=dict(line=line, **(detail or {})))
-        self.items = []
 
 
 # D33 (DESIGN.md): `energy([])` on a variable-free model returns 0, not the offset.  `as_samples([])` normalises the empty
@@ -438,6 +445,9 @@ def check_energies(ctx, r, B, R, target, site, labels_used, all_labels, dom, mir
     `oracle(t, row)` -> exact Fraction from reported coefficients."""
     t = R.ev(target)
     oracle = oracle or poly_value
+    if hasattr(t, 'iter_quadratic') and hasattr(t, 'get_quadratic') and r.random() < .5:
+        # every read accessor of the object reports the polynomial `oracle` reads through iter_linear / iter_quadratic
+        check_reads(ctx, R, target, site.replace('.energies', ''), degenerate or 'model as built or as an edit history left it')
     extras = [l for l in all_labels if l not in labels_used]
     if r.random() < .3:
         extras = extras + [l for l in LABELS if l not in all_labels][:1]
@@ -983,6 +993,187 @@ def case_stale_view(ctx, r, B):
                      repro=R.script(f'row = {row!r}\nassert F(v.energy(row)) == poly_value(v, row), (v.energy(row), poly_value(v, row))\n'))
 
 
+
+# ------------------------------------------------------------------------------------------ every read accessor, CQM histories
+
+def check_reads(ctx, R, target, site, ic, expect=None):
+    """every read accessor of `target` reports one polynomial (and, when an independent reference `expect` = (off, lin, quad) is
+    tracked, that one).  Returns the reference polynomial the positional path reports, or None."""
+    t = R.ev(target)
+    bad, ref = ACC.disagreements(t)
+    ctx.tick(f'{site}: read accessors compared')
+    ctx.case((site, 'reads', tuple(R.lines[4:]), target), nontrivial=len(t.variables) > 0)
+    if bad:
+        name, text = bad[0]
+        ctx.fail('property', site + ' read accessors', f'{ic}; accessor={name.split("(")[0].strip()}',
+                 f'{target}: {name}: {text}' + (f' (and {len(bad) - 1} more accessors)' if len(bad) > 1 else ''),
+                 repro=R.script(ACC.repro_src(target)), detail=dict(all=[f'{n}: {x}' for n, x in bad[:8]]))
+        return None
+    if expect is not None and ref != expect:
+        ctx.fail('property', site + ' read accessors', f'{ic}; against the coefficients written',
+                 f'{target}: every accessor reports {ACC.show(ref)} but the operations applied give {ACC.show(expect)}',
+                 repro=R.script(ACC.repro_src(target) + f'assert ref == {expect!r}, (ref, "written", {expect!r})\n'))
+        return None
+    return ref
+
+
+def expr_state(c, t):
+    """what expression `t` of CQM `c` reports, in model indices: (vars, positional linear, iter_quadratic triples, offset)"""
+    mv = list(c.variables)
+    ev = list(t.variables)
+    return ([mv.index(v) for v in ev], [F(t.get_linear(v)) for v in ev],
+            [(mv.index(u), mv.index(v), F(b)) for u, v, b in t.iter_quadratic()], F(t.offset))
+
+
+def case_cqm_history(ctx, r, B):
+    """one CQM, expressions in private variable orders, 1-5 in-place operations; after every step every expression: all read
+    accessors give one polynomial, it is the one the operations applied define, and energies is its value.
+    The whole history runs in a forked copy first: an assertion / segfault of the code under test is reported as a crash
+    with the script up to the fatal call instead of killing the harness."""
+    dead = HIST.canary(lambda: cqm_history_body(ctx, r, Batch(ctx), HIST.LoggedRecipe()))
+    if dead is not None:
+        sig, lines = dead
+        last = lines[-1] if lines else '?'
+        m = __import__('re').search(r'\.(\w+)\(', last)
+        ctx.tick('history: interpreter killed in the forked copy')
+        ctx.case(('CQM history', 'killed', tuple(lines)), nontrivial=True)
+        ctx.fail('crash', 'CQM.' + (m.group(1) if m else 'history'),
+                 'in-place history on one CQM whose expressions list their variables in a private order',
+                 f'the interpreter was killed by signal {sig} in `{last}` (failed assertion / memory error in the code under test)',
+                 repro='\n'.join(list(HIST.HEADER) + lines) + '\n', detail=dict(script=lines))
+        for _ in range(40):      # the generator state of this process is untouched: move on
+            r.random()
+        return
+    R = Recipe()
+    try:
+        cqm_history_body(ctx, r, B, R)
+    except Exception as e:  # noqa   a read accessor of a model the public mutators produced must not raise
+        if not R.ns.get('c'):
+            raise
+        ctx.fail('property', 'CQM expression read accessors', 'in-place history on one CQM whose expressions list their variables in a private order; '
+                 'reading the model raised', f'{type(e).__name__}: {e} while reading variables / coefficients / energies after `{R.lines[-1]}`',
+                 repro=R.script(ACC.repro_src('c.objective') + 'for k_ in c.constraints:\n    t = c.constraints[k_].lhs\n    list(t.variables)\n'
+                                '    bad, ref = disagreements(t)\n    assert not bad, bad\n'))
+
+
+def cqm_history_body(ctx, r, B, R):
+    st = HIST.build(r, R)
+    nsteps = r.randint(1, 5)
+    what, facts = 'fresh model', {}
+    pending = []        # (target, driver line prefix) captured right before a single-variable removal
+
+    def before(kind, v, a, only):
+        c = R['c']
+        n = len(c.variables)
+        g = list(c.variables).index(v)
+        op = f'R:{g}' if kind == 'R' else f'V:{g}' if kind == 'V' else f'F:{g}:{rat(F(a))}'
+        for target in ([only] if only else st['targets']):
+            vs, lin, quad, off = expr_state(c, R.ev(target))
+            qt = ','.join(f'{u}:{w}:{rat(b)}' for u, w, b in quad) or '-'
+            if kind in 'RF':
+                # which branches of Expression::reindex_variables(g) this call takes on this expression
+                start = vs.index(g) if g in vs else len(vs)
+                rest = [u for u in vs if u != g]
+                ctx.tick('reindex_variables: v ' + ('present' if g in vs else 'absent'))
+                if any(u > g for u in rest[:start]):
+                    ctx.tick('reindex_variables: loop 2 re-inserts a shifted label (guard true)')
+                if any(u < g for u in rest[:start]):
+                    ctx.tick('reindex_variables: loop 2 leaves an entry (guard false)')
+                if any(u == g + 1 for u in rest[:start]):
+                    ctx.tick('reindex_variables: loop 2 meets the successor of v (label == v after the shift)')
+                if rest[start:]:
+                    ctx.tick('reindex_variables: loop 3 runs')
+                if any(u > g for u in rest):
+                    ctx.tick('reindex_variables: loop 1 erases and decrements')
+            pending.append((target, f'exprstep {n} {",".join(map(str, vs)) or "-"} {rats(lin)} {qt} {rat(off)} {op}'))
+
+    for k in range(nsteps + 1):
+        c = R['c']
+        mv = list(c.variables)
+        vts = st['vts'] = {v: c.vartype(v).name for v in mv}
+        fact_txt = ''.join(f'; {f}' for f, on in sorted(facts.items()) if on)
+        # (i) the model of the step just executed, on the state the expression reported before it
+        x = {l: r.choice(domain(vts[l])) for l in mv}
+        for target, prefix in pending:
+            t = R.ev(target)
+            if not exact_in_double(t, x):
+                continue
+            site = 'CQM.objective' if target == 'c.objective' else 'CQM.constraint.lhs'
+            lin = [F(t.get_linear(v)) for v in mv]
+            quad = []
+            for gi, u in enumerate(mv):
+                for hi in range(gi, len(mv)):
+                    try:
+                        b = F(t.get_quadratic(u, mv[hi], default=0))
+                    except ValueError:
+                        b = 0
+                    if b:
+                        quad.append((gi, hi, b))
+            pval = F(t.offset) + sum(b * F(x[mv[g]]) for g, b in enumerate(lin)) + sum(b * F(x[mv[g]]) * F(x[mv[h]]) for g, h, b in quad)
+            expect = (f'vars={",".join(str(mv.index(v)) for v in t.variables) or "-"} lin={rats(lin)} '
+                      f'quad={",".join(f"{g}:{h}:{rat(b)}" for g, h, b in quad) or "-"} e={rat(F(t.energy(x)))} p={rat(pval)}')
+            B.add(f'{prefix} {len(mv)} {rats([x[l] for l in mv])}', expect, site + ' read accessors',
+                  f'after {what}; expression written in {st["styles"][target]} order{fact_txt}',
+                  f'{target} after the step: variables, label readings, energy', detail=dict(model=R.lines[4:]), driver='exprreadsdriver')
+        pending.clear()
+        for target in st['targets']:
+            site = 'CQM.objective' if target == 'c.objective' else 'CQM.constraint.lhs'
+            style = st['styles'][target]
+            ic = f'after {what}; expression written in {style} order{fact_txt}'
+            ctx.tick(f'history: {what}{fact_txt}')
+            refx = st['refs'][target]
+            t = R.ev(target)
+            ev = list(t.variables)
+            if sorted(map(repr, ev)) != sorted(map(repr, refx.vars)):
+                ctx.fail('property', site + ' read accessors', f'{ic}; variables', f'{target}.variables = {ev} but the operations applied leave {refx.vars}',
+                         repro=R.script(f'assert sorted(map(repr, {target}.variables)) == {sorted(map(repr, refx.vars))!r}, list({target}.variables)\n'))
+                return
+            ref = check_reads(ctx, R, target, site, ic, expect=refx.poly())
+            if ref is None:
+                return
+            # energies = the value of that polynomial, dict rows and a labelled array in shuffled column order
+            rows = [{l: r.choice(domain(vts[l])) for l in mv} for _ in range(2)]
+            if not all(exact_in_double(t, row) for row in rows):
+                continue
+            expect = [refx.value(row) for row in rows]
+            perm = perm_of(r, mv)
+            for name, enc_expr in (('dicts', '[' + ', '.join(dict_lit(row, perm_of(r, mv)) for row in rows) + ']'),
+                                   ('array+labels', f'(np.array({[[float(row[l]) for l in perm] for row in rows]!r}).reshape(2, {len(perm)}), {perm!r})')):
+                ctx.tick(f'{site}.energies (history):{name}')
+                ctx.case((site, 'history', tuple(R.lines[4:]), target, enc_expr), nontrivial=bool(ev))
+                repro = R.script(ACC.repro_src(target) + textwrap.dedent(f'''
+                    got = [F(e) for e in t.energies({enc_expr})]
+                    exp = [value(ref, row) for row in {rows!r}]
+                    assert got == exp, ('energies', got, 'polynomial of the reported coefficients', exp)
+                    '''))
+                try:
+                    got = [F(e) for e in t.energies(R.ev(enc_expr))]
+                except Exception as e:  # noqa
+                    ctx.fail('property', site + '.energies', ic, f'{type(e).__name__}: {e} for samples that assign every variable of the model', repro=repro)
+                    return
+                if got != expect:
+                    ctx.fail('property', site + '.energies', f'{ic}; encoding={name}', f'energies {list(map(str, got))} but the polynomial every accessor '
+                             f'reports gives {list(map(str, expect))}', repro=repro, detail=dict(encoding=enc_expr))
+                    return
+                if name == 'dicts':
+                    d_rows, d_labels = real_as_samples(R.ev(enc_expr))
+                    order = list(t.variables)
+                    l, a, o = qmb_tokens(t, order=order, r=r)
+                    vars_tok = ','.join(str(c.variables.index(v)) for v in order) or '-'
+                    B.add(f'exprenergies {vars_tok}|{l}|{a}|{o} {labs(c.variables)} {rows_tok(d_rows)} {labs(d_labels)}', enc_energies(got), site + '.energies', ic,
+                          f'{target}.energies({enc_expr})', detail=dict(model=R.lines[4:]))
+        if k == nsteps:
+            break
+        res = None
+        for _ in range(6):
+            res = HIST.step(r, R, st, before=before)
+            if res is not None:
+                break
+        if res is None:
+            break
+        what, facts = res
+
+
 # ------------------------------------------------------------------------------------------ label -> column resolution
 
 def vstate_tok(v):
@@ -1237,6 +1428,21 @@ def case_poly(ctx, r, B):
     check_energies(ctx, r, B, R, 'p', 'BinaryPolynomial.energies', used, labels, dom, mirror,
                    oracle_src='poly_sum(t, row)', oracle=poly_sum, vartype_name=vt,
                    degenerate='no variables' if not used else 'general')
+    # the single-sample entry point `BinaryPolynomial.energy(sample)` (dict, and a 1-d labelled array)
+    row = {l: r.choice(domain(vt)) for l in labels}
+    for name, enc in (('dict', dict_lit(row, perm_of(r, labels))),
+                      ('1d+labels', f'(np.array({[row[l] for l in labels]!r}, dtype=np.int8), {labels!r})') if labels else ('dict', dict_lit(row, labels))):
+        ctx.tick(f'BinaryPolynomial.energy:{name}')
+        ctx.case(('BinaryPolynomial.energy', tuple(R.lines[4:]), enc), nontrivial=bool(used))
+        try:
+            e = F(p.energy(R.ev(enc)))
+        except Exception as ex:  # noqa
+            e = f'{type(ex).__name__}: {ex}'
+        if e != poly_sum(p, row):
+            ctx.fail('property', 'BinaryPolynomial.energy', 'no variables' if not used else f'general; encoding={name}',
+                     f'energy({enc}) = {e} but the sum of the terms gives {poly_sum(p, row)}',
+                     repro=R.script(f'row = {row!r}\nassert F(p.energy({enc})) == poly_sum(p, row), (p.energy({enc}), poly_sum(p, row))\n'))
+            break
 
 
 def sweep_permutations(ctx, B):
@@ -1343,7 +1549,7 @@ def run(ctx):
                 'model has variables and the call evaluates at least one row; distinct by (construction script, target, encoding)')
     for i in range(n):
         kind = r.choice(['bqm', 'bqm', 'qm', 'qm', 'cqm', 'cqm', 'cqm', 'dqm', 'poly', 'as', 'as', 'as', 'wide', 'wide', 'stale', 'stale', 'range', 'range',
-                         'cqmrange', 'cqmrange', 'boundary', 'boundary', 'asforms', 'asforms'])
+                         'cqmrange', 'cqmrange', 'boundary', 'boundary', 'asforms', 'asforms', 'cqmhist', 'cqmhist', 'cqmhist'])
         ctx.tick('model:' + kind)
         if kind == 'bqm':
             case_bqm(ctx, r, B)
@@ -1367,6 +1573,8 @@ def run(ctx):
             case_dtype_boundary(ctx, r, B)
         elif kind == 'asforms':
             check_as_samples_forms(ctx, r, B)
+        elif kind == 'cqmhist':
+            case_cqm_history(ctx, r, B)
         else:
             check_as_samples(ctx, r, B)
         if len([f for f in ctx.failures if f['kind'] == 'property']) >= 12:
